@@ -127,9 +127,16 @@ def _cond_on_x(rp, st):
     a = st["a"]
     c = rp.heap[a["i"]]
     x = stack_q(a["x"])
+
+    def chk(val, exp):
+        # get_conditional_mu(x)[r, n] is the mean of component r*N+n of condition_on_x(x)
+        want = np.asarray(to_float(st["o"]["mu"]))
+        cmp_lin("get_conditional_mu", np.asarray(val).reshape(want.shape), want)
+
+    mu = c.get_conditional_mu(x)
     if a["via"] == "call":
-        return c(x), None
-    return c.condition_on_x(x), None
+        return c(x), ("custom", mu, chk)
+    return c.condition_on_x(x), ("custom", mu, chk)
 
 
 @binding("SetY")
